@@ -30,6 +30,13 @@ def rule_split_table(ctx):
         raise A.AnchorLost(f"{PARSING}::<Expr as Parse>::parse", "take_until1(alt([..]), punct(','))")
     alt = call["args"][0]
     until = A.render(call["args"][1])
+    if A.kind(alt) == "Expr::Path":
+        # the alternatives extracted into a helper `fn part(c) -> .. { alt(&mut [..])(c) }`
+        hf = [g for g in A.functions(f) if g.name == A.path_str(alt) and g.block is not None]
+        if len(hf) == 1 and len(hf[0].block["stmts"]) == 1 and A.kind(hf[0].block["stmts"][0]) == "Stmt::Expr":
+            e_ = hf[0].block["stmts"][0]["0"]
+            if A.kind(e_) == "Expr::Call" and A.kind(e_["func"]) == "Expr::Call":
+                alt = e_["func"]
     if A.path_str(alt.get("func")) != "alt":
         raise A.AnchorLost(f"{PARSING}::<Expr as Parse>::parse", "alt([..]) as the scanner body")
     alts = [A.render(A.peel(x)) for x in A.peel(alt["args"][0])["elems"]]
@@ -57,6 +64,16 @@ def rule_split_table(ctx):
         ctx.instance(f"alt-extra:{a}")
         ctx.report(f"split:extra:{a}", w, f"scanner alternative `{a}` corresponds to no place where Rust's grammar keeps a comma inside an expression", {})
     ctx.instance("alt:catch-all-last")
+    # the leaf scanners advance by exactly one token tree: no loop inside them (a leaf that swallows a run of tokens
+    # hides the openers `<` / `|` of the balanced alternatives and the separating comma itself)
+    for leaf in ("token_tree", "punct", "punct_with_spacing"):
+        lf = [g for g in A.functions(f) if g.name == leaf and g.block is not None]
+        if len(lf) != 1:
+            raise A.AnchorLost(f"{PARSING}::{leaf}", "leaf scanner")
+        loops = [x for x, _ in A.walk(lf[0].block) if A.kind(x) in ("Expr::While", "Expr::Loop", "Expr::ForLoop")]
+        ctx.instance(f"leaf:{leaf}")
+        if loops:
+            ctx.report(f"split:leaf-loop:{leaf}", ctx.where(f, lf[0].node), f"the leaf scanner `{leaf}` contains a loop: it no longer consumes exactly one token tree, so it can swallow the `<` / `|` that opens a balanced group, or the comma that ends the argument", {})
     if not alts or alts[-1] != "token_tree":
         ctx.report("split:token_tree-not-last", w, "the catch-all `token_tree` alternative is not the last one: the balanced-group alternatives after it are never tried", {"alternatives": alts})
     # an alternative that opens on a token which is also a binary operator must be position-guarded
@@ -83,7 +100,8 @@ def _scanner_progress(ctx):
     ctx.instance("balanced_pair:fails-at-eof")
     loops = [x for x, _ in A.find(bp.block, "Expr::While")]
     ok = len(loops) == 1 and A.wfull(A.render(loops[0]["cond"]), "count!=0") is not None
-    fallback_try = "let (tt,rest)=cur.token_tree()?" in bt
+    # the fallback step takes one token tree and *fails* (`?`) at the end of input: inline or through the leaf scanner
+    fallback_try = "let (tt,rest)=cur.token_tree()?" in bt or A.wsearch(bt, "token_tree(cur)?") is not None
     early = any(A.kind(x) in ("Expr::Break", "Expr::Return") for x, _ in A.walk(loops[0]["body"])) if loops else True
     if not ok or not fallback_try or early:
         ctx.report(
@@ -109,8 +127,11 @@ def _scanner_progress(ctx):
             if A.kind(st_) == "Stmt::Local" and A.kind(st_["pat"]) == "Pat::Ident" and not st_["pat"].get("mutability") and st_.get("init"):
                 als[st_["pat"]["ident"]["sym"]] = (st_["init"]["expr"], st_)
         rend = [re.sub(r"^if \((.*)\)\{", r"if \1{", A.inline_text(A.render_stmt(x), als)) for x in body if not (A.kind(x) == "Stmt::Local" and any(x is v[1] for v in als.values()))]
-        exit_ok = any(A.wfull(r.rstrip(";"), "if cursor.eof()||until(cursor).is_some(){return parsed.then_some((out,cursor))}") or A.wfull(r.rstrip(";"), "if until(cursor).is_some()||cursor.eof(){return parsed.then_some((out,cursor))}") for r in rend)
-        want = ["let (stream,c)=parser(cursor)?", "out.extend(stream)", "cursor=c", "parsed=true"]
+        prm = [A.pat_idents(p_["0"]["pat"]) for p_ in tu.node["sig"]["inputs"] if A.kind(p_) == "FnArg::Typed"]
+        p0 = prm[0][0] if len(prm) == 2 and prm[0] else "parser"
+        p1 = prm[1][0] if len(prm) == 2 and prm[1] else "until"
+        exit_ok = any(A.wfull(r.rstrip(";"), "if cursor.eof()||%s(cursor).is_some(){return parsed.then_some((out,cursor))}" % p1) or A.wfull(r.rstrip(";"), "if %s(cursor).is_some()||cursor.eof(){return parsed.then_some((out,cursor))}" % p1) for r in rend)
+        want = ["let (stream,c)=%s(cursor)?" % p0, "out.extend(stream)", "cursor=c", "parsed=true"]
         got = [r.rstrip(";") for r in rend]
         steps_ok = all(any(A.wfull(g, w_) for g in got) for w_ in want) and len(got) == len(want) + 1 and got[0].startswith("if ") and got[1].startswith("let (")
     if not (exit_ok and steps_ok):
